@@ -59,32 +59,39 @@ class Check(HCheck):
         F.pair = None
         F.mapped = None
         tr = None
+        def take_maps():
+            try:
+                got = []
+                for st in (F.t.lru_trie_storage, F.t.links_store_storage):
+                    mm = st.map()
+                    blocks = []
+                    off = 0
+                    while True:
+                        b = mm.read(off)
+                        if not b:
+                            break
+                        blocks.append(bytes(b))
+                        off += st.block_size
+                    mm.release()
+                    got.append(b"".join(blocks))
+                return got
+            except Exception as e:
+                return "%s: %s" % (type(e).__name__, e)
+
         try:
             for i, op in enumerate(hist):
                 tr = F.apply(op)
                 trM = M.apply(op)
                 if i == len(hist) - 1:
                     F.pair = (tr, trM)
+                # memory-mapped reader: taken right after EVERY request (so that a history holds
+                # several maps with only in-place rewrites between two of them)
+                F.mapped = take_maps()
         except Disabled:
             F.close()
             return None, None
-        # memory-mapped reader: taken now, right after the last request
-        try:
-            F.mapped = []
-            for st in (F.t.lru_trie_storage, F.t.links_store_storage):
-                mm = st.map()
-                blocks = []
-                off = 0
-                while True:
-                    b = mm.read(off)
-                    if not b:
-                        break
-                    blocks.append(bytes(b))
-                    off += st.block_size
-                mm.release()
-                F.mapped.append(b"".join(blocks))
-        except Exception as e:
-            F.mapped = "%s: %s" % (type(e).__name__, e)
+        if not hist:
+            F.mapped = take_maps()
         F.mem = M
         # lock-step loss on either side is C15's own business (identical answers), not a skip
         F.broken = None
